@@ -189,6 +189,7 @@ func init() {
 		InitPkgs: []string{mod + "/mp4"},
 		Instances: func(tier string, L *Loaded) []*HarnessCfg {
 			r := boxInstances(L, "VerifC02Box", tierN(tier, -128, 96), tierW(tier, 3, 20), [][]string{{"false"}}, false)
+			r = append(r, boxInstances(L, "VerifC02Box", tierN(tier, -24, 40), tierW(tier, 2, 10), [][]string{{"true"}}, false)...)
 			return append(r, fileInstances("VerifC02File", tier, [][]string{{}})...)
 		},
 		Bounds: func(tier string) map[string]interface{} {
@@ -202,6 +203,7 @@ func init() {
 		InitPkgs: []string{mod + "/mp4"},
 		Instances: func(tier string, L *Loaded) []*HarnessCfg {
 			r := boxInstances(L, "VerifC03Box", tierN(tier, -128, 96), tierW(tier, 3, 20), [][]string{{"false"}}, false)
+			r = append(r, boxInstances(L, "VerifC03Box", tierN(tier, -24, 40), tierW(tier, 2, 10), [][]string{{"true"}}, false)...)
 			return append(r, fileInstances("VerifC03File", tier, [][]string{{}})...)
 		},
 		Bounds: func(tier string) map[string]interface{} {
@@ -534,9 +536,9 @@ func init() {
 		Instances: func(tier string, L *Loaded) []*HarnessCfg {
 			var r []*HarnessCfg
 			p := mod + "/mp4"
-			layouts := []string{"1", "12", "1,2", "12,1", "2;1", "11,2;21"}
+			layouts := []string{"1", "12", "1,2", "12,1", "2;1", "11,2;21", "1,2+e", "2;1+e"}
 			if tier == "thorough" {
-				layouts = append(layouts, "123", "1,1,1", "21,12;1,2", "3;12,1;2")
+				layouts = append(layouts, "123", "1,1,1", "21,12;1,2", "3;12,1;2", "12+e", "11,2;21+e")
 			}
 			for li, lay := range layouts {
 				for v := 0; v < 8; v++ {
@@ -683,8 +685,9 @@ func init() {
 				"va":  {1, 20, 40, 41, 64, 80, 81, 100, 160},
 				"a":   {1, 21, 22, 43, 64, 100},
 				"vav": {1, 40, 41, 80, 120, 159, 160, 161, 250},
+				"vh":  {1, 416, 417, 834, 1000, 1700},
 			}
-			for _, lay := range []string{"v", "vc", "va", "a", "vav"} {
+			for _, lay := range []string{"v", "vc", "va", "a", "vav", "vh"} {
 				for v := 0; v < 4; v++ {
 					// symbolic duration: all crop durations 1..400 ms in one instance
 					c := inst(p, "VerifC10", lay, "-1", fmt.Sprint(v&1 == 1), fmt.Sprint(v&2 == 2))
